@@ -69,6 +69,21 @@ def fmtOf (f : String) : Option Fmt :=
   if f = "src" then some G else if f = "fixed" then some fixedFmt
   else if f = "legacy" then some legacyFmt else none
 
+/-- `code:t:cps` (text) or `code:i:int` -/
+def parseTTag (e : String) : Option TTag :=
+  match e.splitOn ":" with
+  | [c, "t", v] => match c.toNat?, parseNats v with
+    | some c, some v => some ⟨c, .text v⟩ | _, _ => none
+  | [c, "i", v] => match c.toNat?, parseInt v with
+    | some c, some v => some ⟨c, .raw (.int v)⟩ | _, _ => none
+  | _ => none
+
+def showTTag (t : TTag) : String :=
+  match t.val with
+  | .text s => toString t.code ++ ":t:" ++ showNats s
+  | .raw (.int v) => toString t.code ++ ":i:" ++ toString v
+  | .raw _ => toString t.code ++ ":?"
+
 def step (dc : Codecs) (mp : Nat → Option (Bytes → Option Str)) (line : String) : String :=
   match line.splitOn "|" with
   | ["fmt"] => if G = fixedFmt then "fixed" else if G = legacyFmt then "legacy" else "other"
@@ -138,6 +153,28 @@ def step (dc : Codecs) (mp : Nat → Option (Bytes → Option Str)) (line : Stri
   | ["writestr", s] => match parseNats s with
     | some t => ";".intercalate ((writeStrTags t).map (fun p => showNats (p.1.filter (· != 32)) ++ ":" ++ showNats p.2))
     | none => "bad-op"
+  | ["binfile", r, c, ts] => match codecOf dc c "", (if ts.isEmpty then some [] else (ts.splitOn ";").mapM parseTTag) with
+    | some c, some ts => match encodeTags c G ts with
+      | .ok bts => match EzdxfVerif.Codec.encAll (r = "1") bts with
+        | .ok b => "ok " ++ showNats b
+        | .error _ => "err frame"
+      | .error e => "err " ++ showErr e
+    | _, _ => "bad-op"
+  | ["asciitext", ts] => match (if ts.isEmpty then some [] else (ts.splitOn ";").mapM (fun e => match e.splitOn ":" with
+        | [c, v] => match c.toNat?, parseNats v with | some c, some v => some (c, v) | _, _ => none
+        | _ => none)) with
+    | some ts => showNats (asciiFileText ts)
+    | none => "bad-op"
+  | ["asciiread", t] => match parseNats t with
+    | some t => match asciiReadTags t with
+      | some ts => "ok " ++ ";".intercalate (ts.map (fun p => toString p.1 ++ ":" ++ showNats p.2))
+      | none => "err"
+    | none => "bad-op"
+  | ["binread", r, c, b] => match codecOf dc c "", parseNats b with
+    | some c, some b => match EzdxfVerif.Codec.decAll (r = "1") (b.length + 1) b with
+      | .ok bts => ";".intercalate (bts.map (fun t => showTTag (decodeTag c t)))
+      | .error _ => "err"
+    | _, _ => "bad-op"
   | ["detect", v, s] => match parseNats v, parseNats s with
     | some v, some t => showNats (detectEncoding Gen.EncodingTables.codepageToEncoding v t) | _, _ => "bad-op"
   | ["detectrec", v, s] => match parseNats v, parseNats s with
